@@ -1,2 +1,2 @@
 #!/bin/bash
-exec "$(dirname "$0")/run_witness.sh" internal/validator "$(dirname "$0")/../findings/C15/get_matches_values_test.go" TestReplayC15
+exec "$(dirname "$0")/run_witness.sh" internal/validator "$(dirname "$0")/../findings/C15/rewrites_test.go" TestReplayC15
